@@ -9,12 +9,14 @@
 (*   sign-time faults  wrongkey (right name, wrong secret), unknownkey,        *)
 (*                     wrongmac (chained on a MAC that was never sent), stale  *)
 (*   octet faults      unsign, alter_* (one bit: header ID, header flags, case *)
-(*                     of a key-name letter, signing time, MAC, original ID)   *)
+(*                     of a key-name letter, TSIG class, TSIG TTL, signing     *)
+(*                     time, MAC, original ID)                                 *)
 (*   sequence faults   drop, dup, swap (with the next envelope) -- at most one *)
 (* Expected: the receiver rejects exactly at the first delivered envelope that *)
-(* is not, up to the two benign alterations (header ID, key-name case: neither *)
-(* is covered by the MAC, RFC 8945 4.3.2 / RFC 4343), the envelope an honest   *)
-(* sender produced for that position; nothing after a rejection is verified.   *)
+(* is not, up to the benign alterations (header ID, key-name case: neither is  *)
+(* covered by the MAC, RFC 8945 4.3.2 / RFC 4343; class and TTL of the TSIG in *)
+(* timers-only envelopes), the envelope an honest sender produced for that     *)
+(* position; nothing after a rejection is verified.                            *)
 EXTENDS Tsig, GenBase
 
 CONSTANTS MaxLen, MaxFaults, EmitChains
@@ -46,10 +48,13 @@ Body(i) ==
     [] OTHER -> Hdr(260, 128, 0, 0)
 
 SignKinds  == {"wrongkey", "unknownkey", "wrongmac", "stale"}
-AlterKinds == {"alter_id", "alter_flags", "alter_keycase", "alter_time", "alter_mac", "alter_origid"}
+AlterKinds == {"alter_id", "alter_flags", "alter_keycase", "alter_class", "alter_ttl", "alter_time", "alter_mac", "alter_origid"}
 OctetKinds == AlterKinds \cup {"unsign"}
 SeqKinds   == {"drop", "dup", "swap"}
-Benign     == {"alter_id", "alter_keycase"}
+\* not covered by the MAC, by design: the header ID (the original ID is), the case of name letters; and in a
+\* timers-only envelope (every one but the first) nothing of the TSIG record but time and fudge
+BenignFault(f) == \/ f.kind \in {"alter_id", "alter_keycase"}
+                  \/ f.kind \in {"alter_class", "alter_ttl"} /\ f.pos >= 2
 
 Faults(L) == { [kind |-> k, pos |-> p] : k \in SignKinds \cup OctetKinds \cup {"drop", "dup"}, p \in 1..L }
              \cup { [kind |-> "swap", pos |-> p] : p \in 1..(L - 1) }
@@ -62,7 +67,7 @@ Has(F, k, p) == [kind |-> k, pos |-> p] \in F
 
 -----------------------------------------------------------------------------
 \* the sender's step for envelope i
-Vars(F, i) == [key |-> IF Has(F, "unknownkey", i) THEN KeyX ELSE Key1, alg |-> Alg,
+Vars(F, i) == [key |-> IF Has(F, "unknownkey", i) THEN KeyX ELSE Key1, alg |-> Alg, class |-> ClassANY, ttl |-> TTL0,
                time |-> IF Has(F, "stale", i) THEN T48Add(Now, 0 - Fudge - 1) ELSE Now,
                fudge |-> Fudge, origId |-> MsgId(Body(i)), error |-> 0, other |-> <<>>]
 SignStep(F, s, i) ==
@@ -78,6 +83,8 @@ BitOf(kind, env) ==
   IN CASE kind = "alter_id"      -> 15
        [] kind = "alter_flags"   -> 23
        [] kind = "alter_keycase" -> 8 * (b + 1) + 2
+       [] kind = "alter_class"   -> 8 * (rd - 8) + 7           \* ANY (255) -> 511
+       [] kind = "alter_ttl"     -> 8 * (rd - 6) + 31
        [] kind = "alter_time"    -> 8 * (tm + 5) + 7
        [] kind = "alter_mac"     -> 8 * (tm + 10)
        [] kind = "alter_origid"  -> 8 * (tm + 10 + Len(p.t.mac) + 1) + 7
@@ -130,7 +137,7 @@ Next == Sign \/ Deliver \/ Verify \/ (Done /\ UNCHANGED vars)
 
 -----------------------------------------------------------------------------
 AllTrue(v) == \A i \in 1..Len(v) : v[i]
-Effective(F) == { f \in F : f.kind \notin Benign }
+Effective(F) == { f \in F : ~BenignFault(f) }
 
 \* C11: a chain is accepted end to end iff no (effective) fault
 EndToEnd == Done => ((Len(verdicts) = cfgv.L /\ AllTrue(verdicts)) <=> Effective(cfgv.F) = {})
@@ -173,7 +180,7 @@ ASSUME ~InWindow(<<1, 0, 0>>, <<0, 0, 0>>, 65535) /\ InWindow(<<0, 1, 0>>, <<0, 
 
 \* export: one line per (L, F) -- the terminal state is unique for a configuration
 KindOrder == <<"wrongkey", "unknownkey", "wrongmac", "stale", "unsign", "alter_id", "alter_flags", "alter_keycase",
-               "alter_time", "alter_mac", "alter_origid", "drop", "dup", "swap">>
+               "alter_class", "alter_ttl", "alter_time", "alter_mac", "alter_origid", "drop", "dup", "swap">>
 FaultList(F) == LET idx == { <<k, p>> \in (1..Len(KindOrder)) \X (1..MaxLen) : Has(F, KindOrder[k], p) }
                     RECURSIVE Lst(_)
                     Lst(S) == IF S = {} THEN <<>>
